@@ -81,8 +81,13 @@ impl<T> RawTable<T> {
         if item.in_main {
             self.table.erase(item.bucket);
         } else if let Some(ref mut lo) = self.leftovers {
-            lo.items.reflect_remove(&item.bucket);
-            lo.table.erase(item.bucket);
+            if mem::size_of::<T>() == 0 {
+                let lo = RefreshItems(lo);
+                lo.0.table.erase(item.bucket);
+            } else {
+                lo.items.reflect_remove(&item.bucket);
+                lo.table.erase(item.bucket);
+            }
         } else {
             unreachable!("invalid bucket state");
         }
@@ -94,8 +99,13 @@ impl<T> RawTable<T> {
         if item.in_main {
             self.table.remove(item.bucket).0
         } else if let Some(ref mut lo) = self.leftovers {
-            lo.items.reflect_remove(&item.bucket);
-            let (v, _) = lo.table.remove(item.bucket);
+            let (v, _) = if mem::size_of::<T>() == 0 {
+                let lo = RefreshItems(lo);
+                lo.0.table.remove(item.bucket)
+            } else {
+                lo.items.reflect_remove(&item.bucket);
+                lo.table.remove(item.bucket)
+            };
 
             if lo.table.len() == 0 {
                 let _ = self.leftovers.take();
@@ -304,6 +314,10 @@ impl<T> RawTable<T> {
         if bucket.in_main {
             self.table.replace_bucket_with(bucket.bucket, f)
         } else if let Some(ref mut lo) = self.leftovers {
+            if mem::size_of::<T>() == 0 {
+                let lo = RefreshItems(lo);
+                return lo.0.table.replace_bucket_with(bucket.bucket, f);
+            }
             // The cached iterator has to learn about the removal while the bucket is still
             // full (that is `reflect_remove`'s contract), and before `f` runs, so that it
             // matches the table even if `f` panics. If `f` hands an element back, it is put
@@ -596,6 +610,21 @@ struct OldTable<T> {
     // We cache an iterator over the old table's buckets so we don't need to do a linear search
     // across buckets we know are empty each time we want to move more items.
     items: raw::RawIter<T>,
+}
+
+/// Rebuilds the cached iterator of an old table when dropped (also on unwind).
+///
+/// `hashbrown::raw::RawIter::reflect_remove` identifies a bucket by the address of its
+/// element, and all buckets of a zero-sized type share one address, so for such types it
+/// cannot be used (it panics, or miscounts in release builds). Elements that have been moved
+/// out of the old table are no longer in it, so a fresh iterator over the old table covers
+/// exactly the elements that remain to be moved.
+struct RefreshItems<'a, T>(&'a mut OldTable<T>);
+
+impl<T> Drop for RefreshItems<'_, T> {
+    fn drop(&mut self) {
+        self.0.items = unsafe { self.0.table.iter() };
+    }
 }
 
 /// Iterator which returns a raw pointer to every full bucket in the table.
